@@ -203,9 +203,12 @@ Fixpoint efrag (e : expr) : bool :=
   | ENum _ | EBool _ | EStr _ | EVar _ => true
   | EGroup e1 => efrag e1
   | EUn UMinus e1 | EUn UBang e1 => efrag e1
-  | EBin _ _ _ l r => efrag l && efrag r
+  | EBin _ _ _ l r | EIndex l r => efrag l && efrag r
+  | EArr l => efrag_list l
   | _ => false
-  end.
+  end
+with efrag_list (l : elist) : bool :=
+  match l with ENil => true | ECons e t => efrag e && efrag_list t end.
 
 (* every name the symbol table resolves is a global whose slot fits 16 bits,
    and the VM's global slots hold the environment *)
@@ -322,14 +325,44 @@ Proof.
     (eexists; split; [exact HC|]; repeat split).
 Qed.
 
-Theorem compile_expr_correct : forall e, efrag e = true -> expr_correct e.
+(* all the values of a list on the stack, the first one deepest *)
+Definition run_tol (p : program) (s : vmstate) (len : nat) (vs : list value) : Prop :=
+  exists n, vm_steps n p s =
+            Running {| ip := ip s + N.of_nat len; ostack := rev vs ++ ostack s; locals := locals s; globals := globals s |}.
+
+Definition elist_correct (l : elist) : Prop :=
+  forall env st st' vs,
+    compile_elist true l st = COk st' -> eval_list env l = Some vs -> sym_static (csym st) ->
+    csym st' = csym st /\
+    exists seg newc,
+      ccode st' = ccode st ++ seg /\ cconsts st' = cconsts st ++ newc /\
+      forall p s more pre post,
+        pcode p = pre ++ seg ++ post ->
+        pconsts p = map const_value (cconsts st') ++ more ->
+        ip s = N.of_nat (List.length pre) ->
+        globals_hold env (csym st) (globals s) ->
+        N.of_nat (List.length (locals s)) + N.of_nat (List.length (ostack s)) + edepth_list l <= StackSize ->
+        run_tol p s (List.length seg) vs.
+
+Lemma eval_list_len env : forall l vs, eval_list env l = Some vs -> Z.of_nat (List.length vs) = elist_len l.
 Proof.
-  induction e; intro HF; try discriminate HF; unfold expr_correct; intros env st st' v HC HE HS.
-  - (* ENum *)
+  induction l as [|e t IH]; intros vs H; simpl in H.
+  - inversion H; reflexivity.
+  - destruct (eval_expr env e); [|discriminate]. destruct (eval_list env t) as [vt|] eqn:E; [|discriminate].
+    inversion H; subst. cbn [List.length elist_len]. rewrite <- (IH vt eq_refl). lia.
+Qed.
+
+Theorem compile_expr_correct_all :
+  (forall e, efrag e = true -> expr_correct e) /\
+  (forall l, efrag_list l = true -> elist_correct l) /\
+  (forall p : eplist, True) /\ (forall o : oexpr, True).
+Proof.
+  apply expr_mutind; try (intros; exact I).
+  - (* ENum *) intros f HF; unfold expr_correct; intros env st st' v HC HE HS.
     simpl in HC, HE. inversion HE; subst v. destruct (const_correct _ _ _ HC) as (A & seg & B & C & D).
     split; [exact A|]. exists seg, [KNum f]. split; [exact B|]. split; [exact C|].
     intros p s more pre post H1 H2 H4 _ H6. eapply (D p s more pre post); eauto.
-  - (* EBool *)
+  - (* EBool *) intros b HF; unfold expr_correct; intros env st st' v HC HE HS.
     simpl in HC, HE. inversion HE; subst v.
     assert (HO : has_operand (if b then OTrue else OFalse) = false) by (destruct b; reflexivity).
     destruct (noarg_step _ _ _ HC HO) as (A & B & C).
@@ -341,11 +374,11 @@ Proof.
       * simpl; lia.
       * change (N.to_nat 0) with 0%nat. lia.
     + reflexivity.
-  - (* EStr *)
+  - (* EStr *) intros s HF; unfold expr_correct; intros env st st' v HC HE HS.
     simpl in HC, HE. inversion HE; subst v. destruct (const_correct _ _ _ HC) as (A & seg & B & C & D).
     split; [exact A|]. exists seg, [KStr s]. split; [exact B|]. split; [exact C|].
     intros p s0 more pre post H1 H2 H4 _ H6. eapply (D p s0 more pre post); eauto.
-  - (* EVar *)
+  - (* EVar *) intros n HF; unfold expr_correct; intros env st st' v HC HE HS.
     simpl in HC, HE. unfold compile_var in HC.
     destruct (st_resolve n (csym st)) as [y|] eqn:ER; [|discriminate].
     pose proof (HS _ _ ER) as HG. rewrite HG in HC.
@@ -362,7 +395,39 @@ Proof.
       * cbn [pure_sem]. rewrite E, N2Z.id. rewrite (H5 _ _ _ ER HE). reflexivity.
       * change (N.to_nat 0) with 0%nat. lia.
     + reflexivity.
-  - (* EUn *)
+  - (* EArr *) intros l IHl HF; unfold expr_correct; intros env st st' v HC HE HS.
+    cbn [efrag] in HF. simpl in HC. bind_inv HC. cbn [eval_expr] in HE.
+    destruct (eval_list env l) as [vs|] eqn:Evs; [|discriminate]. cbn [option_map] in HE. inversion HE; subst v.
+    destruct (IHl HF env st st0 vs H Evs HS) as (A & seg & newc & B & C & D).
+    apply emit_ok in HC. destruct HC as (ins & HM & ->). cbn [csym ccode cconsts].
+    pose proof (make_some_range Array _ _ eq_refl HM) as HRng.
+    destruct (make_arg_bytes Array (elist_len l)) as (hi & lo & HM' & E); [reflexivity|lia|].
+    rewrite HM in HM'. inversion HM'; subst ins; clear HM'.
+    pose proof (eval_list_len env l vs Evs) as HLen.
+    split; [exact A|]. exists (seg ++ [N_of_opc Array; hi; lo]), newc.
+    split; [rewrite B, app_assoc; reflexivity|]. split; [exact C|].
+    intros p s more pre post H1 H2 H4 H5 H6. cbn [edepth] in H6.
+    assert (R1 : run_tol p s (List.length seg) vs).
+    { eapply (D p s more pre ([N_of_opc Array; hi; lo] ++ post)).
+      - rewrite H1, <- !app_assoc. reflexivity.
+      - exact H2.
+      - exact H4.
+      - exact H5.
+      - lia. }
+    destruct R1 as (n1 & R1).
+    set (s1 := {| ip := ip s + N.of_nat (List.length seg); ostack := rev vs ++ ostack s; locals := locals s; globals := globals s |}) in *.
+    exists (n1 + 1)%nat. eapply vm_steps_trans; [exact R1|]. simpl.
+    rewrite (fetch_arg p s1 Array hi lo (pre ++ seg) post); [|rewrite H1, <- !app_assoc; reflexivity|unfold s1; simpl; rewrite H4, app_length; lia|reflexivity].
+    assert (EN : N.to_nat (hi * 256 + lo) = List.length (rev vs)) by (rewrite rev_length, E; lia).
+    rewrite (exec_pure p s1 Array _ _ (hi * 256 + lo)%N (VArr vs)); try reflexivity.
+    + unfold s1; simpl. rewrite EN, skipn_app, skipn_all, Nat.sub_diag. cbn [skipn app].
+      rewrite app_length. simpl. f_equal. f_equal. lia.
+    + unfold s1; simpl. rewrite EN, app_length. lia.
+    + unfold s1; simpl. rewrite EN, firstn_app, firstn_all, Nat.sub_diag. cbn [firstn]. rewrite app_nil_r.
+      cbn [pure_sem]. rewrite rev_involutive. reflexivity.
+    + unfold s1; simpl. rewrite EN, app_length. replace (List.length (rev vs) + List.length (ostack s) - List.length (rev vs))%nat with (List.length (ostack s)) by lia. lia.
+  - (* EMap *) intros kvs _ np HF. discriminate HF.
+  - (* EUn *) intros op e IHe HF; try (destruct op; discriminate HF); unfold expr_correct; intros env st st' v HC HE HS.
     assert (HF1 : efrag e = true) by (destruct op; simpl in HF; congruence).
     specialize (IHe HF1). simpl in HC. bind_inv HC.
     assert (exists a, eval_expr env e = Some a /\
@@ -393,7 +458,7 @@ Proof.
     + unfold s1; simpl; lia.
     + unfold s1; simpl. apply HPS.
     + unfold s1; simpl. pose proof (edepth_pos e). simpl in H6. lia.
-  - (* EBin *)
+  - (* EBin *) intros op lt rt e1 IHe1 e2 IHe2 HF; unfold expr_correct; intros env st st' v HC HE HS.
     simpl in HF. apply andb_true_iff in HF. destruct HF as [HF1 HF2].
     specialize (IHe1 HF1). specialize (IHe2 HF2). simpl in HC. bind_inv HC. bind_inv H.
     simpl in HE. destruct (eval_expr env e1) as [a|] eqn:Ea; [|discriminate].
@@ -433,7 +498,89 @@ Proof.
     + unfold s2, s1; simpl; lia.
     + unfold s2, s1; simpl. apply HPS.
     + unfold s2, s1; simpl. pose proof (edepth_pos e2). lia.
-  - (* EGroup *)
+  - (* EIndex *) intros e1 IHe1 e2 IHe2 HF; unfold expr_correct; intros env st st' v HC HE HS.
+    simpl in HF. apply andb_true_iff in HF. destruct HF as [HF1 HF2].
+    specialize (IHe1 HF1). specialize (IHe2 HF2). simpl in HC. bind_inv HC. bind_inv H.
+    simpl in HE. destruct (eval_expr env e1) as [a|] eqn:Ea; [|discriminate].
+    destruct (eval_expr env e2) as [b|] eqn:Eb; [|discriminate].
+    destruct (IHe1 env st st1 a H0 Ea HS) as (A1 & seg1 & newc1 & B1 & C1 & D1).
+    assert (HS1 : sym_static (csym st1)) by (rewrite A1; exact HS).
+    destruct (IHe2 env st1 st0 b H Eb HS1) as (A2 & seg2 & newc2 & B2 & C2 & D2).
+    assert (exists o, emit true o [] st0 = COk st' /\ is_pure o = true /\ has_operand o = false /\
+              (forall arg, simple_effect o arg = Some (2, 1)) /\
+              forall arg cs ls gs, pure_sem o arg cs ls gs [b; a] = POk v) as (o & HEm & HP & HO & HSE & HPS).
+    { exists Index. split; [exact HC|]. repeat split. intros arg cs ls gs. cbn [pure_sem].
+      destruct (index_value a b); inversion HE; reflexivity. }
+    destruct (noarg_step _ _ _ HEm HO) as (A' & B' & C').
+    split; [congruence|]. exists (seg1 ++ seg2 ++ [N_of_opc o]), (newc1 ++ newc2).
+    split; [rewrite C', B2, B1, <- !app_assoc; reflexivity|].
+    split; [rewrite B', C2, C1, <- app_assoc; reflexivity|].
+    intros p s more pre post H1 H2 H4 H5 H6. cbn [edepth] in H6.
+    assert (R1 : run_to p s (List.length seg1) a).
+    { eapply (D1 p s (map const_value newc2 ++ more) pre (seg2 ++ [N_of_opc o] ++ post)).
+      - rewrite H1, <- !app_assoc. reflexivity.
+      - rewrite H2, B', C2, map_app, <- app_assoc. reflexivity.
+      - exact H4.
+      - exact H5.
+      - pose proof (N.le_max_l (edepth e1) (1 + edepth e2)). lia. }
+    destruct R1 as (n1 & R1).
+    set (s1 := {| ip := ip s + N.of_nat (List.length seg1); ostack := a :: ostack s; locals := locals s; globals := globals s |}) in *.
+    assert (R2 : run_to p s1 (List.length seg2) b).
+    { eapply (D2 p s1 more (pre ++ seg1) ([N_of_opc o] ++ post)).
+      - rewrite H1, <- !app_assoc. reflexivity.
+      - rewrite H2, B'. reflexivity.
+      - unfold s1; simpl. rewrite H4, app_length. lia.
+      - unfold s1; simpl. rewrite A1. exact H5.
+      - unfold s1; cbn [ostack locals List.length]. pose proof (N.le_max_r (edepth e1) (1 + edepth e2)). lia. }
+    destruct R2 as (n2 & R2).
+    set (s2 := {| ip := ip s1 + N.of_nat (List.length seg2); ostack := b :: ostack s1; locals := locals s1; globals := globals s1 |}) in *.
+    exists (n1 + (n2 + 1))%nat. eapply vm_steps_trans; [exact R1|]. eapply vm_steps_trans; [exact R2|]. simpl.
+    rewrite (fetch_noarg p s2 o (pre ++ seg1 ++ seg2) post);
+      [|rewrite H1, <- !app_assoc; reflexivity|unfold s2, s1; simpl; rewrite H4, !app_length; lia|exact HO].
+    rewrite (exec_pure p s2 o 0 _ 2 v HP (HSE 0)).
+    + unfold s2, s1; simpl. rewrite !app_length. simpl. f_equal. f_equal. lia.
+    + unfold s2, s1; simpl; lia.
+    + unfold s2, s1; simpl. apply HPS.
+    + unfold s2, s1; simpl. pose proof (edepth_pos e2). lia.
+  - (* ESlice *) intros l _ a _ b _ HF. discriminate HF.
+  - (* EGroup *) intros e IHe HF; unfold expr_correct; intros env st st' v HC HE HS.
     simpl in HF, HC, HE. destruct (IHe HF env st st' v HC HE HS) as (A & seg & newc & B & C & D).
     split; [exact A|]. exists seg, newc. split; [exact B|]. split; [exact C|]. exact D.
+  - (* EUnsupported *) intros w HF. discriminate HF.
+  - (* ENil *) intros _ env st st' vs HC HE HS. simpl in HC, HE. inversion HC; subst st'. inversion HE; subst vs.
+    split; [reflexivity|]. exists [], []. split; [rewrite app_nil_r; reflexivity|]. split; [rewrite app_nil_r; reflexivity|].
+    intros p s more pre post _ _ _ _ _. exists 0%nat. simpl. destruct s; simpl. f_equal. f_equal. lia.
+  - (* ECons *) intros e IHe t IHt HF env st st' vs HC HE HS.
+    cbn [efrag_list] in HF. apply andb_true_iff in HF. destruct HF as [HF1 HF2].
+    simpl in HC. bind_inv HC. cbn [eval_list] in HE.
+    destruct (eval_expr env e) as [v|] eqn:Ev; [|discriminate]. destruct (eval_list env t) as [vt|] eqn:Evt; [|discriminate].
+    inversion HE; subst vs.
+    destruct (IHe HF1 env st st0 v H Ev HS) as (A1 & seg1 & newc1 & B1 & C1 & D1).
+    assert (HS1 : sym_static (csym st0)) by (rewrite A1; exact HS).
+    destruct (IHt HF2 env st0 st' vt HC Evt HS1) as (A2 & seg2 & newc2 & B2 & C2 & D2).
+    split; [congruence|]. exists (seg1 ++ seg2), (newc1 ++ newc2).
+    split; [rewrite B2, B1, app_assoc; reflexivity|]. split; [rewrite C2, C1, app_assoc; reflexivity|].
+    intros p s more pre post H1 H2 H4 H5 H6. cbn [edepth_list] in H6.
+    assert (R1 : run_to p s (List.length seg1) v).
+    { eapply (D1 p s (map const_value newc2 ++ more) pre (seg2 ++ post)).
+      - rewrite H1, <- !app_assoc. reflexivity.
+      - rewrite H2, C2, map_app, <- app_assoc. reflexivity.
+      - exact H4.
+      - exact H5.
+      - lia. }
+    destruct R1 as (n1 & R1).
+    set (s1 := {| ip := ip s + N.of_nat (List.length seg1); ostack := v :: ostack s; locals := locals s; globals := globals s |}) in *.
+    assert (R2 : run_tol p s1 (List.length seg2) vt).
+    { eapply (D2 p s1 more (pre ++ seg1) post).
+      - rewrite H1, <- !app_assoc. reflexivity.
+      - exact H2.
+      - unfold s1; simpl. rewrite H4, app_length. lia.
+      - unfold s1; simpl. rewrite A1. exact H5.
+      - unfold s1; cbn [ostack locals List.length]. lia. }
+    destruct R2 as (n2 & R2).
+    exists (n1 + n2)%nat. eapply vm_steps_trans; [exact R1|]. rewrite R2. unfold s1; simpl.
+    rewrite app_length, <- app_assoc. simpl. f_equal. f_equal. lia.
 Qed.
+
+Theorem compile_expr_correct : forall e, efrag e = true -> expr_correct e.
+Proof. exact (proj1 compile_expr_correct_all). Qed.
